@@ -49,7 +49,10 @@ func removeTwoNodeCycles(g *graph.DGraph) {
 			seen[pair{a, b}] = true
 		}
 	}
-	for e := range rev {
-		e.Reverse()
+	// reverse in edge-list order: the order of reversals determines the order of the adjacency lists
+	for _, e := range g.Edges {
+		if rev[e] {
+			e.Reverse()
+		}
 	}
 }
